@@ -30,6 +30,8 @@ class InjectedFault(Exception):
 
 
 def _maybe_fail():
+    if CURRENT.get("fail_always"):
+        raise InjectedFault("injected fault in calculate_matrix (persistent)")
     n = CURRENT.get("fail_after_matrix_calls")
     if n is not None:
         n -= 1
